@@ -333,8 +333,11 @@ def rescale(img, scale, shape=None, mask=None, order=3, mode='nearest',
         else:
             shape = np.ceil((shape[0]*scale, shape[1]*scale)).astype(int)
 
-    x = (np.arange(shape[1], dtype=np.float64) - shape[1]/2.)/scale + img.shape[1]/2.
-    y = (np.arange(shape[0], dtype=np.float64) - shape[0]/2.)/scale + img.shape[0]/2.
+    # sample about the origin samples floor(n/2) of the input and of the output
+    # (the centre convention of mesh, pad, the DFT and every other helper), so
+    # that what sits on the optical axis stays there for odd sizes too
+    x = (np.arange(shape[1], dtype=np.float64) - shape[1]//2)/scale + img.shape[1]//2
+    y = (np.arange(shape[0], dtype=np.float64) - shape[0]//2)/scale + img.shape[0]//2
 
     xx, yy = np.meshgrid(x, y)
 
